@@ -10,9 +10,9 @@ def run(ctx):
     q = ctx.quick()
     scanner_mc.dec_mc(ctx)
     scanner_mc.model_check(ctx, "C05")
-    prm = dict(kind="dec", upto=131 if q else 3000, rlow=[0, 1, 21, 100, 181, 999] if q else spell.RQUICK_LOW,
-               rhigh=[0, 1, 2, 100] if q else spell.RQUICK_HIGH, randn=1000 if q else 50000, seed=ctx.seed % 100000,
-               fracs=FRACS, perint=6 if q else 12)
+    prm = dict(kind="dec", upto=131 if q else 1500, rlow=[0, 1, 21, 100, 181, 999] if q else [0, 1, 2, 11, 21, 71, 80, 99, 100, 101, 181, 999],
+               rhigh=[0, 1, 2, 100] if q else [0, 1, 2], randn=1000 if q else 6000, seed=ctx.seed % 100000,
+               fracs=FRACS, perint=6 if q else 8)
     spell.run_kind(ctx, "C05", "Gen_Spell", prm,
                    "integer parts: every n <= %d, representative groups, %d seeded numbers below 10^9; fractions: %d fixed digit strings (leading/"
                    "trailing zeros, up to 6 digits) and seeded digit strings of length 1..6, %d per integer part; plus four negative forms per case "
